@@ -3,7 +3,7 @@
    Stability across CLOSEFILE/OPENFILE and restart is the record <-> line mapping of Codec.v
    (store_records at close, load_records at open): proved for every sequence of records in which each record is
    line safe, not empty and does not start with '#' -- which every value the codec writes is (Properties_C13). *)
-From PE2 Require Import Files Lemmas_Arrays Lemmas_Files Lemmas_Codec Lemmas_RecLines.
+From PE2 Require Import Files Lemmas_Arrays Lemmas_Files Lemmas_Codec Lemmas_RecLines Eval Run Lemmas_RandStates.
 Local Open Scope Z_scope.
 
 Theorem C14_seek_exact : forall f k, (exists f', rf_seek f k = Some f') <-> 1 <= k <= nrecs f + 1.
@@ -69,3 +69,33 @@ Proof. split; [repeat constructor; discriminate|]. split; vm_compute; reflexivit
 Example C14_fresh_handle_ok : handle_ok (mkOfile (str_of_string "a.dat") FRandom [] [] 0 false) /\
   handle_ok (mkOfile (str_of_string "a.dat") FRandom [] [str_of_string "r1"; str_of_string "r2"] 2 true).
 Proof. unfold handle_ok, cursor, nrecs. cbn. lia. Qed.
+
+(* ---- the three statements themselves, in every state (file name a string literal) ---- *)
+(* SEEK "f", a : the cursor of that handle moves as rf_seek says (C14_seek_exact); nothing else changes.  a is any expression that
+   yields, without touching the state, an INTEGER >= 1 *)
+Theorem C14_seek_statement_moves_the_cursor_only : forall ped repl lim fuel t name a c s ar addr fh fh',
+  ev_eval (evs_at ped repl lim (S fuel)) a c s = (Ok ar, s) -> dk (r_type ar) = KInt -> r_val ar = Some (PInt addr) -> (1 <= addr)%Z ->
+  find_file (tval name) (s_files s) = Some fh -> of_mode fh = FRandom -> rf_seek fh addr = Some fh' ->
+  ev_eval (evs_at ped repl lim (S (S fuel))) (NSeek t (NStr name) a) c s = (Ok res_none, set_files (replace_file fh' (s_files s)) s).
+Proof. exact seek_moves_the_cursor. Qed.
+Print Assumptions C14_seek_statement_moves_the_cursor_only.
+
+(* PUTRECORD "f", v : the handle becomes rf_put fh txt (C14_put_replaces / C14_put_appends), txt the text form of v's value; nothing
+   else changes *)
+Theorem C14_putrecord_statement_writes_at_the_cursor_only : forall ped repl lim fuel t name id c s fh vid cl tr txt,
+  find_file (tval name) (s_files s) = Some fh -> of_mode fh = FRandom ->
+  lookup_var c (tval id) true s = (Ok (Some vid), s) -> lookup_arr c (tval id) true s = (Ok None, s) ->
+  nm_get vid (s_cells s) = Some cl -> dk (c_type cl) <> KPtr -> abs_val hfuel c (c_val cl) s = (Ok tr, s) -> dump tr = Some txt ->
+  ev_eval (evs_at ped repl lim (S (S fuel))) (NPutRecord t (NStr name) id) c s = (Ok res_none, set_files (replace_file (rf_put fh txt) (s_files s)) s).
+Proof. exact putrecord_writes_the_value_at_the_cursor. Qed.
+Print Assumptions C14_putrecord_statement_writes_at_the_cursor_only.
+
+(* GETRECORD "f", v : the record under the cursor (rf_get) is loaded into v's value in place; the handle is left as it was *)
+Theorem C14_getrecord_statement_loads_the_record_under_the_cursor : forall ped repl lim fuel t name id c s fh vid cl rec old new rest s',
+  find_file (tval name) (s_files s) = Some fh -> of_mode fh = FRandom ->
+  lookup_var c (tval id) true s = (Ok (Some vid), s) -> lookup_arr c (tval id) true s = (Ok None, s) ->
+  nm_get vid (s_cells s) = Some cl -> dk (c_type cl) <> KPtr -> c_const cl = false -> rf_get fh = Some rec ->
+  abs_val hfuel c (c_val cl) s = (Ok old, s) -> load old rec = (new, rest, true) -> store_tree hfuel vid new s = (Ok Datatypes.tt, s') ->
+  ev_eval (evs_at ped repl lim (S (S fuel))) (NGetRecord t (NStr name) id) c s = (Ok res_none, s').
+Proof. exact getrecord_loads_the_record_at_the_cursor. Qed.
+Print Assumptions C14_getrecord_statement_loads_the_record_under_the_cursor.
